@@ -24,6 +24,16 @@
 (* accounts and commodities are compared as sets of rows, and ledgers with  *)
 (* two open (close, commodity) directives for one account (currency) are    *)
 (* outside the domain (WellFormed).                                         *)
+(*                                                                         *)
+(* PART 3 (the connection): the ledger is attached to a connection once and  *)
+(* any number of statements are executed on it.  A statement either refers   *)
+(* to a registered table as it is (FROM #postings, no FROM clause) or, for   *)
+(* the default table, carries a FROM clause with the qualifiers OPEN ON,     *)
+(* CLOSE [ON], CLEAR; the compiler sets these on a COPY of the registered    *)
+(* table (BeanTable.update) and the iteration walks the PREPARED entries     *)
+(* (BeanTable.prepare).  What the tables present is a function of the ledger *)
+(* alone: RowsAfter(history, L, keys) = Rows(L, keys) whatever was executed  *)
+(* before on the same connection (HistoryFree).                              *)
 (***************************************************************************)
 EXTENDS Integers, Sequences, FiniteSets, TLC
 
@@ -31,7 +41,10 @@ CONSTANTS
     Alpha,      \* the directive alphabet: a sequence of abstract directives
     MaxLen,     \* ledgers of 0..MaxLen directives
     Keys,       \* sequence of metadata keys looked up by meta() & co
-    Mech        \* "ok" = the iteration as shipped;  "skipfirst" / "rowidperentry" = deliberately broken (non-vacuity)
+    Mech,       \* "ok" = the iteration as shipped;  "skipfirst" / "rowidperentry" / "updateinplace" = deliberately
+                \* broken (non-vacuity)
+    MaxStmts,   \* statements executed one after the other on the one connection
+    QualOpts    \* the FROM qualifiers a statement on the default table may carry: a set of Qual records
 
 -----------------------------------------------------------------------------
 (* ---- generic helpers ---- *)
@@ -269,6 +282,56 @@ TypedTables == DOMAIN TableKind
 TableNames == {"postings", "entries", "accounts", "commodities"} \cup TypedTables
 
 -----------------------------------------------------------------------------
+(* ---- PART 3, declarative side: FROM qualifiers, prepared entries, history ---- *)
+(* the qualifiers of a FROM clause: OPEN ON date, CLOSE ON date (date 0 = CLOSE without a date), CLEAR *)
+NoQual == [open |-> NULL, close |-> NULL, clear |-> FALSE]
+HasPrefix(str, pre) == Len(str) >= Len(pre) /\ SubSeq(str, 1, Len(pre)) = pre
+IsNominal(a) == HasPrefix(a, "Income:") \/ HasPrefix(a, "Expenses:")
+SynthMeta == << <<"filename", [t |-> "str", s |-> "<summarize>", n |-> <<0, 1>>]>>,
+                <<"lineno", [t |-> "int", s |-> "", n |-> <<0, 1>>]>> >>
+Synth(date, narr, acct) ==
+    [k |-> "txn", date |-> date, meta |-> SynthMeta, flag |-> "S", payee |-> NULL, narration |-> narr,
+     tags |-> Some(<<>>), links |-> Some(<<>>),
+     postings |-> << [acct |-> acct, u |-> [n |-> <<0, 1>>, c |-> "XXX"], cost |-> NULL, price |-> NULL, flag |-> NULL,
+                      meta |-> NULL] >>]
+HasPostings(M) == \E i \in 1..Len(M) : NPost(M[i]) > 0
+PostedAccounts(M) == UNION {{M[i].postings[j].acct : j \in 1..NPost(M[i])} : i \in 1..Len(M)}
+NominalAccounts(M) == {a \in PostedAccounts(M) : IsNominal(a)}
+LastDate(M) == IF Len(M) = 0 THEN 1 ELSE M[Len(M)].date
+(* The entries a table with qualifiers q walks.  C11 does not state what beancount.ops.summarize computes; this is a
+   stand-in with its SHAPE only (OPEN: the transactions before the date are replaced by one synthetic opening
+   transaction; CLOSE ON: the directives from the date on are dropped; CLEAR: a synthetic transfer transaction is
+   appended when an income / expenses account was posted to): what matters here is that the prepared entries are in
+   general NOT the ledger, and that without qualifiers they ARE the ledger. *)
+Prepared(M, q) ==
+    IF q = NoQual THEN M
+    ELSE LET b1 == IF IsNull(q.open) THEN M
+                   ELSE LET old == SelectSeq(M, LAMBDA e : e.date < q.open[1])
+                            kept == SelectSeq(M, LAMBDA e : e.date >= q.open[1] \/ ~IsTxn(e))
+                        IN  (IF HasPostings(old) THEN <<Synth(q.open[1] - 1, "Opening balance", "Equity:Opening-Balances")>>
+                             ELSE <<>>) \o kept
+             b2 == IF IsNull(q.close) \/ q.close = Some(0) THEN b1 ELSE SelectSeq(b1, LAMBDA e : e.date < q.close[1])
+             b3 == IF q.clear /\ NominalAccounts(b2) # {}
+                   THEN Append(b2, Synth(LastDate(b2), "Transfer balance", CHOOSE a \in NominalAccounts(b2) : TRUE))
+                   ELSE b2
+         IN  b3
+
+(* an earlier statement on the connection: its form and its qualifiers.  Forms with a FROM clause on the default table:
+   "count" (SELECT count), "agg" (GROUP BY account), "rows" (with a FROM expression), "balances" (BALANCES FROM),
+   "error" (fails to compile after the table was derived), "partial" (cursor abandoned after one row); forms without:
+   "tableref" (FROM #postings), "default" (no FROM clause at all), "entries" (FROM #entries).
+   THE clause: the history is not an argument of what the tables show *)
+FromForms == {"count", "agg", "rows", "balances", "error", "partial"}
+RefForms == {"tableref", "default", "entries"}
+St(form, q) == [form |-> form, open |-> q.open, close |-> q.close, clear |-> q.clear]
+IsHistory(h) ==
+    \A n \in 1..Len(h) :
+        /\ h[n].form \in FromForms \cup RefForms
+        /\ h[n].form \in RefForms => (IsNull(h[n].open) /\ IsNull(h[n].close) /\ ~h[n].clear)
+RowsAfter(history, M, keys) == Rows(M, keys)
+TableAfter(history, M, keys, t) == TableRows(M, keys, t)
+
+-----------------------------------------------------------------------------
 (* ---- PART 2: the mechanism ---- *)
 VARIABLES
     lx,        \* the ledger under iteration, as indices into Alpha
@@ -278,12 +341,20 @@ VARIABLES
     ctx,       \* THE row context: [rowid, entry, posting] -- one object, mutated and yielded again and again
     emitted,   \* what the consumer evaluated at each yield: a copy of ctx (postings / entries), an entry index (typed)
     dir,       \* open/close map: sequence of <<account, open index or 0, close index or 0>> in insertion order
-    done
+    done,
+    conn       \* the connection: [n   = statements started so far,
+               \*                  ask = the qualifiers the running statement's text carries,
+               \*                  reg = the qualifiers stored on the REGISTERED postings table (never any, as shipped),
+               \*                  cur = the qualifiers stored on the table object the running statement iterates]
 
-vars == <<lx, tab, ei, pj, ctx, emitted, dir, done>>
+vars == <<lx, tab, ei, pj, ctx, emitted, dir, done, conn>>
 
-L == [n \in 1..Len(lx) |-> Alpha[lx[n]]]
 LedgerOf(ix) == [n \in 1..Len(ix) |-> Alpha[ix[n]]]
+Base == LedgerOf(lx)                                   \* the ledger attached to the connection
+L == IF conn.cur = NoQual THEN Base ELSE Prepared(Base, conn.cur)      \* table.prepare(): what the iteration walks
+LenL == IF conn.cur = NoQual THEN Len(lx) ELSE Len(Prepared(Base, conn.cur))
+Decl == IF conn.ask = NoQual THEN Base ELSE Prepared(Base, conn.ask)    \* what the statement's table must present
+Conn0 == [n |-> 0, ask |-> NoQual, reg |-> NoQual, cur |-> NoQual]
 
 (* the ledger is first written down directive by directive (tab = "build": every well-formed ledger over Alpha of
    up to MaxLen directives is reached), then one table is chosen and iterated *)
@@ -295,19 +366,38 @@ Init ==
     /\ emitted = <<>>
     /\ dir = <<>>
     /\ done = FALSE
+    /\ conn = Conn0
 
 Build ==
-    /\ tab = "build" /\ Len(lx) < MaxLen
+    /\ tab = "build" /\ Len(lx) < MaxLen /\ conn.n = 0
     /\ \E letter \in 1..Len(Alpha) :
           /\ WellFormed(LedgerOf(Append(lx, letter)))
           /\ lx' = Append(lx, letter)
-    /\ UNCHANGED <<tab, ei, pj, ctx, emitted, dir, done>>
+    /\ UNCHANGED <<tab, ei, pj, ctx, emitted, dir, done, conn>>
+(* compile one statement: the table is looked up in the connection's registry; a FROM clause (only possible on the
+   default table, postings) sets its qualifiers -- none included -- on a COPY of the registered table
+   (BeanTable.update: copy.copy + setattr); FROM #table and statements without FROM use the registered object *)
 Start ==
-    /\ tab = "build"
-    /\ tab' \in TableNames
+    /\ tab = "build" /\ conn.n < MaxStmts
+    /\ \E t \in TableNames, q \in QualOpts :
+       \E viaFrom \in IF t = "postings" THEN BOOLEAN ELSE {FALSE} :
+          /\ ~viaFrom => q = NoQual
+          /\ tab' = t
+          /\ LET reg2 == IF Mech = "updateinplace" /\ viaFrom THEN q ELSE conn.reg
+             IN  conn' = [n |-> conn.n + 1, ask |-> q, reg |-> reg2,
+                          cur |-> IF t # "postings" THEN NoQual ELSE IF viaFrom /\ Mech # "updateinplace" THEN q ELSE reg2]
     /\ UNCHANGED <<lx, ei, pj, ctx, emitted, dir, done>>
+(* the statement is finished (all rows fetched); the next one is compiled on the same connection: a new iteration with
+   a new row context -- nothing but the registry survives *)
+NextStatement ==
+    /\ done /\ conn.n < MaxStmts
+    /\ tab' = "build" /\ ei' = 0 /\ pj' = 0
+    /\ ctx' = [rowid |-> 0, entry |-> 0, posting |-> 0]
+    /\ emitted' = <<>> /\ dir' = <<>> /\ done' = FALSE
+    /\ conn' = [conn EXCEPT !.ask = NoQual, !.cur = NoQual]
+    /\ UNCHANGED lx
 
-AtEnd == ei = Len(lx)
+AtEnd == ei = LenL
 InnerLeft == ei > 0 /\ IsTxn(L[ei]) /\ pj < Len(L[ei].postings)
 
 (* EntriesTable.__iter__: for entry in entries: context.entry = entry; context.rowid += 1; yield context *)
@@ -316,7 +406,7 @@ NextEntryE ==
     /\ ei' = ei + 1
     /\ ctx' = [ctx EXCEPT !.entry = ei + 1, !.rowid = @ + 1]
     /\ emitted' = Append(emitted, ctx')
-    /\ UNCHANGED <<lx, tab, pj, dir, done>>
+    /\ UNCHANGED <<lx, tab, pj, dir, done, conn>>
 
 (* PostingsTable.__iter__, outer loop: if isinstance(entry, Transaction): context.entry = entry *)
 NextEntryP ==
@@ -326,7 +416,7 @@ NextEntryP ==
     /\ ctx' = IF IsTxn(L[ei + 1])
               THEN [ctx EXCEPT !.entry = ei + 1, !.rowid = IF Mech = "rowidperentry" THEN @ + 1 ELSE @]
               ELSE ctx
-    /\ UNCHANGED <<lx, tab, emitted, dir, done>>
+    /\ UNCHANGED <<lx, tab, emitted, dir, done, conn>>
 
 (* inner loop: context.rowid += 1; context.posting = posting; yield context *)
 NextPosting ==
@@ -334,14 +424,14 @@ NextPosting ==
     /\ pj' = pj + 1
     /\ ctx' = [ctx EXCEPT !.rowid = IF Mech = "rowidperentry" THEN @ ELSE @ + 1, !.posting = pj + 1]
     /\ emitted' = Append(emitted, ctx')
-    /\ UNCHANGED <<lx, tab, ei, dir, done>>
+    /\ UNCHANGED <<lx, tab, ei, dir, done, conn>>
 
 (* sources/beancount.py Table.__iter__: yield the entries that are instances of the table's datatype *)
 NextTyped ==
     /\ tab \in TypedTables /\ ~done /\ ~AtEnd
     /\ ei' = ei + 1
     /\ emitted' = IF L[ei + 1].k = TableKind[tab] THEN Append(emitted, ei + 1) ELSE emitted
-    /\ UNCHANGED <<lx, tab, pj, ctx, dir, done>>
+    /\ UNCHANGED <<lx, tab, pj, ctx, dir, done, conn>>
 
 (* getters.get_account_open_close: a map account -> [open, close]; an earlier-dated (or, on equal dates, the
    earlier listed) directive wins over a later duplicate *)
@@ -358,7 +448,7 @@ NextDirectory ==
                 prev == d0[m][slot]
                 keep == prev # 0 /\ L[prev].date <= e.date
             IN dir' = [d0 EXCEPT ![m][slot] = IF keep THEN prev ELSE ei + 1]
-    /\ UNCHANGED <<lx, tab, pj, ctx, emitted, done>>
+    /\ UNCHANGED <<lx, tab, pj, ctx, emitted, done, conn>>
 
 (* getters.get_commodity_directives: {entry.currency: entry for entry in entries if Commodity}: one slot per
    currency, at the position of its first directive, holding the last one *)
@@ -371,14 +461,14 @@ NextCommodity ==
             THEN emitted' = [n \in 1..Len(emitted) |->
                                 IF L[emitted[n]].currency = e.currency THEN ei + 1 ELSE emitted[n]]
             ELSE emitted' = Append(emitted, ei + 1)
-    /\ UNCHANGED <<lx, tab, pj, ctx, dir, done>>
+    /\ UNCHANGED <<lx, tab, pj, ctx, dir, done, conn>>
 
 Finish ==
     /\ tab # "build" /\ ~done /\ AtEnd /\ ~(tab = "postings" /\ InnerLeft)
     /\ done' = TRUE
-    /\ UNCHANGED <<lx, tab, ei, pj, ctx, emitted, dir>>
+    /\ UNCHANGED <<lx, tab, ei, pj, ctx, emitted, dir, conn>>
 
-Next == Build \/ Start \/ NextEntryE \/ NextEntryP \/ NextPosting \/ NextTyped \/ NextDirectory \/ NextCommodity \/ Finish
+Next == Build \/ Start \/ NextStatement \/ NextEntryE \/ NextEntryP \/ NextPosting \/ NextTyped \/ NextDirectory \/ NextCommodity \/ Finish
 
 Spec == Init /\ [][Next]_vars
 
@@ -401,14 +491,20 @@ MechRows ==
 IsPrefix(s, t) == Len(s) <= Len(t) /\ s = SubSeq(t, 1, Len(s))
 
 TypeOK ==
-    /\ ei \in 0..Len(lx) /\ pj \in 0..4 /\ ctx.rowid \in 0..(5 * MaxLen) /\ done \in BOOLEAN
+    /\ ei \in 0..LenL /\ pj \in 0..4 /\ ctx.rowid \in 0..(5 * (MaxLen + 1)) /\ done \in BOOLEAN
+    /\ conn.n \in 0..MaxStmts /\ conn.ask \in QualOpts /\ conn.reg \in QualOpts /\ conn.cur \in QualOpts
 
 (* the mechanism yields exactly the declarative rows, in order -- at the end, and a prefix of them at any time *)
 MechEqDecl ==
-    /\ tab = "postings" => IsPrefix([n \in 1..Len(emitted) |-> <<emitted[n].entry, emitted[n].posting>>], Postings(L))
+    /\ tab = "postings" => IsPrefix([n \in 1..Len(emitted) |-> <<emitted[n].entry, emitted[n].posting>>], Postings(Decl))
     /\ tab = "entries" => \A n \in 1..Len(emitted) : emitted[n].entry = n
-    /\ tab \in TypedTables => IsPrefix(emitted, OfKind(L, TableKind[tab]))
-    /\ (done /\ tab # "build") => MechRows = TableRows(L, Keys, tab)
+    /\ tab \in TypedTables => IsPrefix(emitted, OfKind(Decl, TableKind[tab]))
+    /\ (done /\ tab # "build") => MechRows = TableRows(Decl, Keys, tab)
+
+(* THE clause of part 3: a statement without qualifiers sees the ledger's tables, whatever statements (with whatever
+   qualifiers) were executed on the connection before it; the registered table never carries qualifiers *)
+HistoryFree == (done /\ tab # "build" /\ conn.ask = NoQual) => MechRows = TableAfter(conn.n - 1, Base, Keys, tab)
+RegistryClean == conn.reg = NoQual
 
 (* rowid identifies the yielded row: 1, 2, 3 ... (the row context hashes by it) *)
 RowidInv == tab \in {"postings", "entries"} => \A n \in 1..Len(emitted) : emitted[n].rowid = n
@@ -421,7 +517,7 @@ LexLess(a, b) == a[1] < b[1] \/ (a[1] = b[1] /\ a[2] < b[2])
 Shift(ps, s) == [n \in 1..Len(ps) |-> <<ps[n][1] + s, ps[n][2]>>]
 
 FlattenLaws ==
-    (ei = 0 /\ tab = "postings") =>
+    (ei = 0 /\ tab = "postings" /\ conn.n = 1) =>
     LET M == L ps == Postings(M) IN
     /\ Len(ps) = SumPost(M, 1)                                                     \* one row per posting
     /\ \A n \in 1..Len(ps) : IsTxn(M[ps[n][1]]) /\ ps[n][2] \in 1..Len(M[ps[n][1]].postings)
@@ -431,7 +527,7 @@ FlattenLaws ==
           ps = Postings(SubSeq(M, 1, s)) \o Shift(Postings(SubSeq(M, s + 1, Len(M))), s)
 
 PartitionLaws ==
-    (ei = 0 /\ tab = "entries") =>
+    (ei = 0 /\ tab = "entries" /\ conn.n = 1) =>
     LET M == L IN
     /\ \A k \in Kinds : LET ix == OfKind(M, k) IN
           /\ \A n \in 1..Len(ix) : M[ix[n]].k = k
@@ -445,7 +541,7 @@ PartitionLaws ==
                                 /\ EntryRow(M, ix[n], Keys).meta = TypedRow(M, ix[n]).meta
 
 NullLaws ==
-    (ei = 0 /\ tab = "postings") =>
+    (ei = 0 /\ tab = "postings" /\ conn.n = 1) =>
     LET M == L ps == Postings(M) IN
     \A n \in 1..Len(ps) :
         LET t == M[ps[n][1]] p == t.postings[ps[n][2]] r == PostingRow(M, ps[n][1], ps[n][2], Keys) IN
